@@ -3,8 +3,9 @@
 From Coq Require Import ZArith QArith String List.
 From QV Require Import Found.Base Found.KS Found.KSProofs Found.Sym Found.SymProofs Found.Circ
   Model.SpinChainTypes Gen.SpinChain Model.Concat Model.SpinChain
-  Proofs.SpinChainCal Proofs.SpinChainRule Proofs.SpinChainSem Proofs.SpinChainC13.
-From QV Require Model.Resolve Proofs.ResolveSem Gen.Devices Model.Transpile Proofs.TranspileC06.
+  Model.Fill Spec.FillSpec Proofs.SpinChainCal Proofs.SpinChainRule Proofs.SpinChainSem Proofs.SpinChainSlices Proofs.SpinChainProp Proofs.SpinChainC13
+  Proofs.SpinChainBridge Proofs.SpinChainBridge2 Proofs.SpinChainBridge3.
+From QV Require Model.Resolve Proofs.ResolveSem Model.TranspileTypes Gen.Devices Model.Transpile Proofs.TranspileC06.
 Import ListNotations.
 Local Open Scope string_scope.
 
@@ -39,3 +40,51 @@ Theorem spinchain_reproduces_transpiled :
 Proof. exact reproduces_transpiled. Qed.
 Print Assumptions spinchain_reproduces_transpiled.
 
+(* ==== FROM THE ORIGINAL CIRCUIT TO THE PULSE-LEVEL PROPAGATOR (sequential compilation): NO hypothesis about transpilation ====
+   src : the original circuit (C13/C03 gates: well formed, inside the circuit width M), denoted by ResolveSem.cden R env src
+         exactly as in Props/C03.v / Props/C13.v (env i = the parameter values of source gate i);
+   out = transpile_on d N M src : C13's model of ModelProcessor.transpile for a spin-chain processor d with N qubits;
+   gs  : the C06 gates with the names and targets of out and the NUMERIC angles the compiler sees;
+   every transpiled gate o is denoted with the atoms of its source gate, env (gsrc o), and its argument expressions
+   substituted, msubst (gargs o) _ -- as C13's transpile_sem does.  Proved inside: C13's transpile_sem and
+   transpile_structure; the invariant that every emitted (name, argument expression) pair belongs to a finite table on
+   which the calibration identity  closed-form pulse = library matrix  holds after substitution (Proofs/SpinChainBridge3.v);
+   the composition for sequential compilation.  Remaining hypotheses: the laws of the abstract slice propagator P
+   (P_time, P_zero, P_idle and P_cal_a below = the matrix exponential of one calibrated instruction is its closed form). *)
+Theorem spinchain_original_circuit_to_pulses :
+  forall (R : PhaseRing) (env : nat -> atoms R) (labels : list label) (P : list Q -> Q -> state R -> state R),
+  (forall h a b s, (a == b)%Q -> P h a s = P h b s) -> (forall h s, P h 0%Q s = s) ->
+  (forall h t s, Forall (fun c => (c == 0)%Q) h -> P h t s = s) ->
+  forall d N M src out (cc : cfg) (gs : list ngate) il ph,
+  In d Devices.devices -> TranspileTypes.dnative d = Some sc_native ->
+  Forall ResolveSem.wf_gate src -> Forall (fun g => Transpile.in_range M g = true) src ->
+  Transpile.transpile_on d N M src = Resolve.Ok out ->
+  c_n cc = N -> setup_ok cc -> Forall2 TranspileC06.same_gate out gs ->
+  (forall i o g dd lb co Mx tp s,
+     nth_error (combine out gs) i = Some (o, g) -> compile_gate cc g = Ok (CInstr dd [(lb, co)]) ->
+     pulse_sgate cc (g_name g) lb = Some (Mx, tp) ->
+     P (ivec labels [(lb, co)]) dd s = sem [gden R (env (Resolve.gsrc o)) (msubst (Resolve.gargs o) Mx, tp)] s) ->
+  compile_gates cc gs 0%Q = Ok (il, ph) -> Forall (fun i => (0 <= fst i)%Q) il ->
+  (forall psi, sem (iden R env (phase_icirc_a (combine out gs))) (prop_slices (state R) P (seq_slices labels il) psi)
+               = sem (ResolveSem.cden R env src) psi) /\
+  (ph == sum_phase gs)%Q.
+Proof. exact original_to_pulses_closed. Qed.
+Print Assumptions spinchain_original_circuit_to_pulses.
+
+(* every gate a spin-chain transpile can emit satisfies the decidable bridge condition (calibration after substitution) *)
+Theorem transpiled_gates_are_calibrated : forall d Ndev M c out, In d Devices.devices -> TranspileTypes.dnative d = Some sc_native ->
+  Forall ResolveSem.wf_gate c -> Forall (fun g => Transpile.in_range M g = true) c ->
+  Transpile.transpile_on d Ndev M c = Resolve.Ok out -> Forall (fun o => bridge_ok o = true) out.
+Proof. exact transpile_bridge_ok. Qed.
+Print Assumptions transpiled_gates_are_calibrated.
+
+(* non-vacuity: both spin-chain processors are such devices; X, then CNOT(0 -> 1) transpile on the open 2-chain *)
+Example spin_chain_devices : TranspileTypes.dnative Devices.dev_LinearSpinChain = Some sc_native /\
+  TranspileTypes.dnative Devices.dev_CircularSpinChain = Some sc_native /\
+  In Devices.dev_LinearSpinChain Devices.devices /\ In Devices.dev_CircularSpinChain Devices.devices.
+Proof. exact spin_chain_devices_native. Qed.
+Example original_circuit_transpiles :
+  exists out, Transpile.transpile_on Devices.dev_LinearSpinChain 2 2
+                [Resolve.MG "X" [0%nat] [] [] 0; Resolve.MG "CNOT" [1%nat] [0%nat] [] 1] = Resolve.Ok out /\
+              (10 < length out)%nat /\ forallb bridge_ok out = true.
+Proof. eexists. split; [vm_compute; reflexivity|]. split; vm_compute; [repeat constructor|reflexivity]. Qed.
